@@ -315,7 +315,7 @@ func runOne(rf replayFile, h func()) replayOut {
 	}()
 	select {
 	case <-fin:
-	case <-time.After(20 * time.Second):
+	case <-time.After(8 * time.Second):
 		out.Outcome = "hang"
 		buf := make([]byte, 1<<16)
 		buf = buf[:runtime.Stack(buf, true)]
